@@ -638,7 +638,13 @@ impl World {
                     if let Err(e) = p.pase.check_comm_window_timeout(|| {}, |_, _| {}) {
                         return code(&e);
                     }
-                    let opener = nz(sfab).and_then(|f| p.fabrics.get(f).map(|fabric| rs_matter::sc::pase::CommWindowOpener { fab_idx: f, vendor_id: fabric.vendor_id() }));
+                    // `current_window_opener` (adm_comm.rs:76): only a CASE session names an opener
+                    let opener = match &mode {
+                        // (the handler unwraps the fabric; the access check in front of it guarantees
+                        // that it exists - here a session that survived a factory reset may lack it)
+                        SessionMode::Case { fab_idx, .. } => Some(rs_matter::sc::pase::CommWindowOpener { fab_idx: *fab_idx, vendor_id: p.fabrics.get(*fab_idx).map(|f| f.vendor_id()).unwrap_or(0) }),
+                        _ => None,
+                    };
                     st(p.pase.open_basic_comm_window(2, &salt, TEST_DEV_COMM.password.reference(), 250, 300, opener, || {}, |_, _| {}))
                 })
             }
@@ -922,6 +928,9 @@ impl World {
             }
             "corrupt" => {
                 let b = u8::from_str_radix(w.get(1).copied().unwrap_or("ff"), 16).unwrap_or(0xff);
+                // a (truncated) array / list start decodes as an EMPTY cache, i.e. is not damage the
+                // loader can see; the model covers blobs that fail to parse
+                let b = if b & 0x1f == 0x16 || b & 0x1f == 0x17 { 0xff } else { b };
                 let n = (num(2) as usize).clamp(1, 64);
                 {
                     let mut i = self.kv.0.borrow_mut();
